@@ -42,17 +42,22 @@ def ring3(asyn=False, provs=PROVS, guarded=False, sparse=False):
     if guarded:
         trans.append(T("s2", "s0", ("r",)))
     fl = "a" if asyn else ""
+
+    def flp(p):
+        # asyn="mixed": only the machine's own callbacks are coroutines (that selects the async
+        # engine); the model's and the listeners' callbacks are plain functions
+        return ("a" if p == "sm" else "") if asyn == "mixed" else fl
     prov = []
     if sparse:
         # only event `a` has before/on callbacks: `b` and `c` return None, `a` a list
         provs = tuple(p for p in provs if p != "model")
         for p in provs:
             for nm in SPARSE_NAMES:
-                prov.append((p, nm, fl))
+                prov.append((p, nm, flp(p)))
     else:
         for p in provs:
             for ph in PHASES:
-                prov.append((p, GENERIC[ph], fl))
+                prov.append((p, GENERIC[ph], flp(p)))
     if guarded:
         prov.append(("sm", "g1", fl))
         prov.append(("sm", "v1", fl))
